@@ -1,10 +1,13 @@
 import HopModel.Driver.C14
 import HopModel.Driver.C20
+import HopModel.Driver.C08
 
 def main (args : List String) : IO UInt32 := do
   match args with
   | "C14" :: rest => Driver.C14.main rest; return 0
   | "C20" :: rest => Driver.C20.main rest; return 0
+  | "C08" :: rest => Driver.C08.main rest; return 0
+  | "C08sys" :: rest => Driver.C08.mainSys rest; return 0
   | _ =>
     IO.eprintln "usage: hopmodel <Cxx> [--spec] < ops.txt > model.txt"
     return 2
